@@ -316,12 +316,17 @@ plus, minus, mult, div = map(pp.Literal, "+-*/")
 
 
 
-def _parse_mult_or_div(tokens: pp.ParseResults) -> float:
+def _parse_mult_or_div(string: str, location: int, tokens: pp.ParseResults) -> float:
     # tokens[0] is the flat, left-associative chain: operand (operator operand)*
     chain = tokens[0]
     result = chain[0]
     for op, operand in zip(chain[1::2], chain[2::2]):
-        result = result * operand if op == "*" else result / operand
+        if op == "*":
+            result = result * operand
+        elif operand == 0:
+            raise pp.ParseFatalException(string, location, "Division by zero in a constant expression")
+        else:
+            result = result / operand
     return result
 
 
